@@ -769,6 +769,22 @@ func (fc *FnCtx) binop(op token.Token, x, y Val, pos token.Pos) Val {
 		case token.ADD:
 			r := fc.declareFresh("strcat", SortStr)
 			fc.cur.assume(and(eq(app("strlen", r), app("bvadd", app("strlen", x.L[0]), app("strlen", y.L[0]))), fc.strWF(r)))
+			// a short constant operand: its bytes are where the concatenation puts them (ground facts, no quantifier)
+			for lit, term := range fc.strConsts {
+				if len(lit) > 16 {
+					continue
+				}
+				if term == y.L[0] {
+					for k := 0; k < len(lit); k++ {
+						fc.cur.assume(eq(app("strat", r, app("bvadd", app("strlen", x.L[0]), bvLit(uint64(k), 64))), bvLit(uint64(lit[k]), 8)))
+					}
+				}
+				if term == x.L[0] {
+					for k := 0; k < len(lit); k++ {
+						fc.cur.assume(eq(app("strat", r, bvLit(uint64(k), 64)), bvLit(uint64(lit[k]), 8)))
+					}
+				}
+			}
 			return Val{T: t, L: []string{r}}
 		case token.LSS, token.LEQ, token.GTR, token.GEQ:
 			r := fc.declareFresh("strcmp", SortBool)
